@@ -45,4 +45,17 @@ theorem tables_transparent_fold (s : St α) (ops : List Op) :
 example : (step env5 (.prime 5) {} (.tables 0 true true none)).1.addTabs = [0] := by
   decide
 
+/-- non-vacuity of the guard, and a concrete history over GF(101): the first table request is refused
+    (limit 0 KiB), the second succeeds, the third — same limit 0 — is "ok" because the tables exist now
+    (table presence IS state for `.tables` itself), and nothing else notices any of this -/
+example : (Op.eBin 0 "plus" 0 0).isTables = false := rfl
+example :
+    let env : Env Nat := { env5 with fld := fun _ => primeOps 101 }
+    let ops : List Op := [.eCtor 0 0 "one" "", .tables 0 true true (some 0), .eBin 1 "times" 0 0,
+                          .tables 0 true true none, .eEq 1 0, .tables 0 true true (some 0), .eIn "add" 1 0]
+    (runOps env (.prime 101) {} ops).2
+      = ["ok 0#1", "err InputTooLarge", "ok 0#1", "ok", "eq true", "ok", "recv 0#2"] ∧
+    (runOps env (.prime 101) {} (ops.filter (!·.isTables))).2 = ["ok 0#1", "ok 0#1", "eq true", "recv 0#2"] := by
+  decide
+
 end Algobra.C18
